@@ -544,7 +544,7 @@ def check(ctx):
                'compression methods are checked as relations: |O psi - result|^2 <= reported eps + 1e-8 (no truncation requested)')
     only = ctx.only
     if not only or 'mc' in only:
-        res = run_mc(ctx, 'MPOAlgebra-depth2', 'ConfigsMC' if quick else 'ConfigsFull', 2, 1 if quick else 0, 6 if quick else 3)
+        res = run_mc(ctx, 'MPOAlgebra-depth2', 'ConfigsMC' if quick else 'ConfigsFull', 2, 1, 6 if quick else 3)  # limited operator catalogue in the exhaustive run (the full one is sampled by the simulation stage)
         runs = [res]
         # is_equal / is_hermitian with the documented default window for an operand of unknown range (L + 2 L sites)
         runs.append(run_mc(ctx, 'MPOAlgebra-window', 'ConfigsBig', 2, 1, 1))
